@@ -378,6 +378,9 @@ func TestC04(t *testing.T) {
 		}
 		c.Shutdown()
 	}
+	if err := janitorRounds(w, sum, &seq, rng, envInt("VERIF_C04_JANITOR", 1500)); err != nil {
+		t.Fatal(err)
+	}
 	if err := w.Close(); err != nil {
 		t.Fatal(err)
 	}
